@@ -240,7 +240,7 @@ def rule_G(ctx):
     fn = absint.funcs(ctx, CIN, dict(npstub.stubs()))
     fn['deepcopy'] = absint.deep_copy
     NANV = float('nan')
-    fn['__globals__']['NAN'] = NANV
+    fn['__globals__']['NAN'] = float('nan')      # another object than the NaN values of the data
     T = absint.classref(ctx, 'tracklib.core.track.Track', fn)
     absint.operator_table(ctx, fn)
     EN = absint.classref(ctx, 'tracklib.core.obs_coords.ENUCoords', fn)
